@@ -34,9 +34,9 @@ produce `rad` bit for bit), and whose pi is the binary64 pi.  rad, c, s are comp
 With angle absent or 0 every operation is exact (tolerance 0 = bit for bit); with a generic angle the 3-term sums of the
 rotation are rounded in an order numpy does not promise, and the comparison uses the tolerance 2^-40 x extent, computed in Coq.
 
-Not tied here (model is silent or deliberately different, see the final report of the tie task):
-  * an EMPTY boolean array used as index of a non-empty probe: numpy accepts it (empty result) whereas np_take answers None;
-    such indices are not generated.
+Boolean masks.  numpy accepts a boolean array of the length of the axis and ALSO an EMPTY boolean array on an axis of any
+length (nothing selected); np_take follows that rule (mask_fits).  Both are generated: the valid stream draws the empty
+boolean array on non-empty probes too ("sub:mask-empty"), the error stream masks of every other length.
 """
 import json
 import math
@@ -478,8 +478,8 @@ def gen_idx(rng, n, err=None):
             return int(rng.choice([-10 ** 6, 10 ** 6, -n, n, -n - 1, n - 1]))
         st = [None, None, 1, 2, 3, -1, -2, -3, 7, -7, n + 1, -(n + 1)][int(rng.integers(12))]
         return ["slice", bound(), bound(), st]
-    if n == 0:
-        return ["mask", []]
+    if n == 0 or rng.random() < 0.2:
+        return ["mask", []]          # the EMPTY boolean array: accepted on an axis of any length, selects nothing
     p = [0.5, 0.1, 0.9, 0.0, 1.0][int(rng.integers(5))]
     mask = [bool(rng.random() < p) for _ in range(n)]
     return ["mask", mask]
@@ -697,6 +697,8 @@ class Tie:
                 break
             done.append(s)
             self.chk.count(tie_C16_call=s[0] + (":" + s[1][0] if s[0] == "sub" else ""))
+            if s[0] == "sub" and s[1][0] == "mask" and len(s[1][1]) == 0:
+                self.chk.count(tie_C16_call="sub:mask-empty on %s probe" % ("an empty" if p.numelements == 0 else "a non-empty"))
             try:
                 p = apply_step(p, s, (c["sp"] >> 3) + 5 * k)
             except ERRORS as e:
@@ -1057,6 +1059,11 @@ class Tie:
         self.prog_case(px0, [["sub", ["int", 1], False]], "note", expect_error={"TypeError"})
         self.prog_case(px0, [["sub", ["list", [6]], False]], "note", expect_error={"IndexError"})
         self.prog_case(px0, [["sub", ["mask", [True, False]], False]], "note", expect_error={"IndexError"})
+        for sp in range(4):      # the empty boolean array on a 6-element probe: the probe without elements
+            self.prog_case(dict(px0, sp=sp), [["sub", ["mask", []], False]], "note:empty mask")
+            self.prog_case(dict(px0, sp=sp), [["sub", ["mask", []], True], ["sub", ["mask", []], False]], "note:empty mask")
+            self.prog_case(dict(px0, sp=sp), [["sub", ["mask", []], True], ["sub", ["mask", [True]], False]], "note:empty mask",
+                           expect_error={"IndexError"})
         self.prog_case(px0, [["sub", ["slice", None, None, 0], False]], "note", expect_error={"ValueError"})
         self.prog_case(px0, [["sub", ["slice", 4, 0, -2], True], ["dims", 1.0, 2.0, 3.0]], "note")
         R = [float(x) for x in CUBE[7].ravel()]
